@@ -30,6 +30,11 @@ def e2e(ctx):
     from props import tracker_common as tc2
     ctx.tlc("Cluster.tla", "Cluster_mc_quick.cfg", workers=12, timeout=2400)
     ctx.tlc("Cluster.tla", "Cluster_live.cfg", workers=8, timeout=2400)
+    # named deviation (DESIGN.md 9.5): raft hands each applied entry to the tracker on its own goroutine; with
+    # unordered hand-off the composition's promise is refuted by TLC (pin c; unpin c delivered as untrack, track)
+    r = ctx.tlc("Cluster.tla", "Cluster_unordered.cfg", workers=2, timeout=600, expect_violation=True, count=False)
+    if not r.violation:
+        raise vcheck.Infra("Cluster_unordered.cfg is expected to refute E2EInv")
     if not ctx.quick():
         # three operations with one daemon outage (10.9 M distinct states, ~5 min)
         ctx.tlc("Cluster.tla", "Cluster_mc.cfg", workers=12, timeout=3600)
